@@ -3,7 +3,7 @@
 // arbitrary contents.  Everything from CreateHalfedges on is cut (paths end
 // there); ReserveIDs is replaced by a stub returning an arbitrary id.
 #include "vf_harness.h"
-#include "/repo/src/impl.cpp"
+#include "impl.cpp"
 using namespace manifold;
 #ifndef VF_LV
 #define VF_LV 12  // max vertProperties length
@@ -28,52 +28,47 @@ template <> uint8_t nd<uint8_t>() { return vf_nondet_u8(); }
 template <> double nd<double>() { return vf_nondet_f64(); }
 template <> float nd<float>() { return vf_nondet_f32(); }
 
+// length of the k-th optional vector: symbolic, or fixed per query by the driver
+// (-DVF_LENS=a,b,c,...: one query per length configuration; contents stay
+// symbolic).  Constant lengths keep every heap block constant-sized.
+#ifdef VF_LENS
+static const unsigned vf_lens[] = {VF_LENS};
+#endif
+static unsigned vf_lenidx = 0;
 template <typename T, unsigned MAXN>
 static void sym(std::vector<T>& v) {
+#ifdef VF_LENS
+  unsigned n = vf_lens[vf_lenidx++];
+#else
   unsigned n = vf_nondet_u32();
+#endif
   vf_assume(n <= MAXN);
   vf_mkvec(v, MAXN, n);
   for (unsigned i = 0; i < MAXN; i++) v.data()[i] = nd<T>();
 }
 
-// VF_DEEP: the two mandatory arrays have the minimal sizes that pass the
-// size gates (4 vertices x 3 properties, 4 triangles) as CONSTANT lengths, so
-// that the deep part of the ladder (merge map, run table, tangents, triangle
-// loop) is reached with small constant-size blocks; contents stay arbitrary.
-// Without VF_DEEP every length is symbolic but small (the early gates).
-template <typename T, unsigned N>
-static void fixedvec(std::vector<T>& v) {
-  vf_mkvec(v, N, N);
-  for (unsigned i = 0; i < N; i++) v.data()[i] = nd<T>();
-}
+// The driver issues one query per LENGTH CONFIGURATION (VF_LENS = lengths of
+// vertProperties, triVerts, mergeFromVert, mergeToVert, runIndex,
+// runOriginalID, runTransform, runFlags, faceID, halfedgeTangent); all
+// contents, numProp and tolerance stay arbitrary.
 template <typename P, typename I>
 static void ingest() {
   MeshGLP<P, I> m;
-#ifdef VF_DEEP
-  m.numProp = 3;
-  fixedvec<P, 12>(m.vertProperties);
-  fixedvec<I, 12>(m.triVerts);
-  sym<I, VF_L>(m.mergeFromVert);
-  sym<I, VF_L>(m.mergeToVert);
-  sym<I, VF_L>(m.runIndex);
-  sym<uint32_t, 2>(m.runOriginalID);
-  sym<P, 12>(m.runTransform);
-  sym<uint8_t, 2>(m.runFlags);
-  sym<I, 4>(m.faceID);
-  sym<P, 4>(m.halfedgeTangent);
+#ifdef VF_NUMPROP
+  m.numProp = VF_NUMPROP;  // fixed per query; the arbitrary-numProp queries use short vectors
 #else
   m.numProp = nd<I>();
-  sym<P, 4>(m.vertProperties);
-  sym<I, 3>(m.triVerts);
-  sym<I, 1>(m.mergeFromVert);
-  sym<I, 1>(m.mergeToVert);
-  sym<I, 1>(m.runIndex);
-  sym<uint32_t, 1>(m.runOriginalID);
-  sym<P, 1>(m.runTransform);
-  sym<uint8_t, 1>(m.runFlags);
-  sym<I, 1>(m.faceID);
-  sym<P, 1>(m.halfedgeTangent);
 #endif
+  sym<P, 16>(m.vertProperties);
+  sym<I, 12>(m.triVerts);
+  sym<I, 3>(m.mergeFromVert);
+  sym<I, 3>(m.mergeToVert);
+  sym<I, 3>(m.runIndex);
+  sym<uint32_t, 2>(m.runOriginalID);
+  sym<P, 24>(m.runTransform);
+  sym<uint8_t, 2>(m.runFlags);
+  sym<I, 4>(m.faceID);
+  sym<P, 48>(m.halfedgeTangent);
   m.tolerance = nd<P>();
 #ifdef VF_EXCLUDE_KNOWN
   VF_EXCLUDE_KNOWN
